@@ -374,6 +374,16 @@ def computeTimeout (env : Env) (now : Nat) : Option Nat :=
   let duration := now - env.start
   if duration ≥ env.lifetime then none else some (min (env.lifetime - duration) env.cfg.timeout)
 
+/-- `BaseResolver._compute_timeout` on an arbitrary clock, which may also run backwards (`start`, `now` in integer
+milliseconds): a step back of at most one second is treated as no time elapsed, a larger one gives up. -/
+def computeTimeoutZ (lifetime timeout : Nat) (start now : Int) : Option Nat :=
+  let d := now - start
+  if d < 0 then
+    if d < -1000 then none
+    else if lifetime = 0 then none else some (min lifetime timeout)
+  else if d ≥ (lifetime : Int) then none
+  else some (min (lifetime - d.toNat) timeout)
+
 inductive QR where
   | raise (r : Result) (st : St)
   | ret (a : Option Answer) (done : Bool) (st : St)
